@@ -4,5 +4,6 @@ CONSTANTS NClasses = 2
  Nla = {"none", "pair"}
  RunCode = TRUE
  ZeroK = FALSE
+ WithU = FALSE
 INVARIANT Emit
 CHECK_DEADLOCK FALSE
